@@ -560,8 +560,20 @@ def iter_values(interp, st, v, node=None):
         return iter_values(interp, st, v.src, node)
     if isinstance(v, Rec):
         f = interp.lib.find_method(interp, v.cls, "__iter__", st)
-        if f is None and interp.lib.find_method(interp, v.cls, "__getitem__", st) is not None:
-            # python's legacy iteration protocol: __getitem__(0), (1), ... until IndexError.
+        g = interp.lib.find_method(interp, v.cls, "__getitem__", st)
+        if f is None and g is not None:
+            # python's legacy iteration protocol: __getitem__(0), (1), ... until IndexError.  Supported when the REAL __getitem__ is
+            # literally `return self.<attr>[<index parameter>]` (checked on the current AST): the iteration is that of self.<attr>.
+            body = [n_ for n_ in g.node.body if not (isinstance(n_, ast.Expr) and isinstance(getattr(n_, "value", None), ast.Constant))]
+            params = [a_.arg for a_ in g.node.args.args]
+            if (len(body) == 1 and isinstance(body[0], ast.Return) and isinstance(body[0].value, ast.Subscript)
+                    and isinstance(body[0].value.value, ast.Attribute) and isinstance(body[0].value.value.value, ast.Name)
+                    and body[0].value.value.value.id == params[0] and isinstance(body[0].value.slice, ast.Name) and len(params) == 2
+                    and body[0].value.slice.id == params[1]):
+                from .npmodel4 import _trust
+
+                _trust("python's legacy iteration protocol: iterating an object without __iter__ calls __getitem__(0), (1), ... until IndexError")
+                return iter_values(interp, st, v.fields[body[0].value.value.attr], node)
             raise Outside("legacy __getitem__ iteration over record", node)
     raise Outside(f"iteration over {type(v).__name__}", node)
 
